@@ -154,7 +154,10 @@ serde = {{ version = "1", default-features = false, features = ["alloc"] }}
 arbitrary = "1"
 '''
     with open(os.path.join(d, 'Cargo.toml'), 'w') as f:
-        f.write(f'[package]\nname = "{name}"\nversion = "0.0.0"\nedition = "2021"\n\n[lib]\npath = "src/lib.rs"\n\n[dependencies]\n{deps}')
+        # the bare-features crate doubles as the edition-2018 user crate (no TryFrom/TryInto/FromIterator in the prelude,
+        # 2018 closure captures and macro semantics): the expansion must not rely on the 2021 prelude
+        edition = c.get('edition', '2021')
+        f.write(f'[package]\nname = "{name}"\nversion = "0.0.0"\nedition = "{edition}"\n\n[lib]\npath = "src/lib.rs"\n\n[dependencies]\n{deps}')
     with open(os.path.join(d, 'src', 'lib.rs'), 'w') as f:
         f.write(corpus.crate_source(c))
 
